@@ -43,6 +43,7 @@ def gen_jobs(seed, n):
         for t in range(len(c['fl'])):
             if out_rng.random() < 0.3:
                 c['fl'][t] |= out_rng.randrange(1, 8) << dagtasks.OUT_SHIFT
+        dagcase.choose_copies(c)     # 6 of 16: the task objects given to run_tasks are pickled / deep-copied copies
         jobs.append(dict(index=i, case=c, top=rng.random() < 0.5))
     # a worker that dies at once next to a quick task, more work queued, task monitor ON: the quick task's result ends
     # the first wait, starting the queued work reaps the dead process, and only then does the monitor sample for the
@@ -74,6 +75,15 @@ def gen_jobs(seed, n):
             kids=[[] for _ in range(nt - 1)] + [list(range(nt - 1))],
             shapes=[[] for _ in range(nt - 1)] + [[('slot', i) for i in range(nt - 1)]],
             inst=[[t, []] for t in range(nt - 1)] + [[nt - 1, list(range(nt - 1))]], req=[nt - 1, 0], pre={}, ctx=0, sched=[])))
+        li += 1
+    # task objects that went through pickle / deepcopy (what a worker's result, a user's pickle file hands back), four
+    # independent tasks of one type with max_parallel=1, more worker slots than that: the type's limit still holds
+    # (the tids are those whose bodies sleep longest: 14-20 ms)
+    for be, pk, top in (('fork', 1, False), ('fork', 2, True), ('spawn', 1, False)):
+        jobs.append(dict(index=li, top=top, copied=True, case=dict(
+            be=be, mw=4, cof=1, bust=0, ty=[0] * 10, mp=[1, None, None], ca=[0, 1, 1], fl=[0] * 10,
+            kids=[[] for _ in range(10)], shapes=[[] for _ in range(10)], inst=[[t, []] for t in (1, 3, 6, 9)],
+            req=[0, 1, 2, 3], pre={}, ctx=0, sched=[], pk=pk)))
         li += 1
     # very many tasks in one run (queues, counters and displays are exercised far beyond a handful of tasks):
     # WIDE_N independent tasks of two types on really forked workers, displays off and on
@@ -285,6 +295,8 @@ def explore(seed, n, workers=12, timeout=300):
             dist['real_redecorated_subclass_type'] = dist.get('real_redecorated_subclass_type', 0) + 1
         if by[r['index']].get('wide'):
             dist['real_run_of_%d_tasks' % len(case['ty'])] = 1
+        if case.get('pk'):
+            dist['real_task_objects_are_copies'] = dist.get('real_task_objects_are_copies', 0) + 1
         if any(f & 128 for f in case['fl']):
             dist['real_lingering_worker'] = dist.get('real_lingering_worker', 0) + 1
         for pid, vs in monitor(case, r).items():
